@@ -640,9 +640,16 @@ theorem strict_of_save_table (d : SDoc) (out : Bytes) (d' : SDoc)
     unfold revisions
     simp only [hsec, htl, hsize, Bool.not_true, Bool.false_eq_true, if_false, hhead, hobjStart, hfilt, hwalk,
       List.reverse_nil, List.nil_append]
+  have hks : Dict.get d'.trailer kSize = some (.int ((d.maxId : Int) + 1)) := hsz'
+  have hallsz : ((List.filter (fun _ => true) d.objects).all fun p => decide (((p.1.1 : Nat) : Int) < (d.maxId : Int) + 1)) = true := by
+    rw [List.all_eq_true]
+    intro p hp
+    have := (hwf.range p (List.mem_filter.mp hp).1).2
+    simp only [decide_eq_true_eq]; omega
   unfold strictLoad
   simp only [hlast, hrev, bne_self_eq_false, Bool.false_eq_true, if_false, mergeRevs, List.length_singleton,
-    List.filterMap_cons, List.filterMap_nil]
+    List.filterMap_cons, List.filterMap_nil, hks]
+  simp only [List.contains_nil, Bool.not_false, List.nil_append, hallsz, Bool.not_true, Bool.false_eq_true, if_false]
   simp [mergeRevs]
 
 /-- user view: the bookkeeping `Size` aside, the trailer the strict reader returns is the document's -/
